@@ -47,7 +47,7 @@ func genCrypt(t *rapid.T) cryptCase {
 	} else {
 		c.Pass = gen.Bytes(0, 128).Draw(t, "pass")
 	}
-	c.Tamper = rapid.SampledFrom([]string{"none", "truncate", "truncate", "flip", "flip", "wrongpass", "extend"}).Draw(t, "tamper")
+	c.Tamper = rapid.SampledFrom([]string{"none", "truncate", "truncate", "flip", "flip", "wrongpass", "nearpass", "nearpass", "extend"}).Draw(t, "tamper")
 	total := 12 + n + 16
 	switch c.Tamper {
 	case "truncate":
@@ -61,6 +61,20 @@ func genCrypt(t *rapid.T) cryptCase {
 		c.Pos = rapid.IntRange(1, 20).Draw(t, "ext")
 	case "wrongpass":
 		c.Pass2 = gen.Bytes(0, 64).Draw(t, "pass2")
+	case "nearpass":
+		// a passphrase that differs from the right one in one place only (also far into a long passphrase)
+		if rapid.Bool().Draw(t, "longpass") {
+			c.Pass = gen.Bytes(60, 200).Draw(t, "longpassbytes")
+		}
+		c.Pass2 = append([]byte(nil), c.Pass...)
+		switch k := rapid.IntRange(0, 2).Draw(t, "nearkind"); {
+		case k == 0 || len(c.Pass2) == 0:
+			c.Pass2 = append(c.Pass2, rapid.Byte().Draw(t, "extra"))
+		case k == 1:
+			c.Pass2 = c.Pass2[:len(c.Pass2)-1]
+		default:
+			c.Pass2[rapid.IntRange(0, len(c.Pass2)-1).Draw(t, "at")] ^= byte(1 << uint(rapid.IntRange(0, 7).Draw(t, "b")))
+		}
 	}
 	c.NonceSplit = 12
 	return c
@@ -132,9 +146,17 @@ func runCrypt(c cryptCase) pbt.Result {
 		})
 	}
 	// round trip
-	out, err, p := decrypt(append([]byte(nil), blob1...), c.Pass)
+	work := append([]byte(nil), blob1...)
+	out, err, p := decrypt(work, c.Pass)
 	if p != nil || err != nil || !bytes.Equal(out, c.Payload) {
 		return merge(res, pbt.Failf("%s: decrypt(encrypt(payload %x, pass %x)) = %x, err %v, panic %v", c.API, c.Payload, c.Pass, out, err, p))
+	}
+	// the encrypted value is still the encrypted value (it is compared and decrypted again by callers)
+	if !bytes.Equal(work, blob1) {
+		return merge(res, pbt.Failf("%s: decrypting modified the encrypted input: %x -> %x", c.API, blob1, work))
+	}
+	if out2, err2, _ := decrypt(work, c.Pass); err2 != nil || !bytes.Equal(out2, c.Payload) {
+		return merge(res, pbt.Failf("%s: decrypting the same encrypted value a second time failed: %v", c.API, err2))
 	}
 	// fail closed
 	blob := append([]byte(nil), blob1...)
@@ -148,15 +170,19 @@ func runCrypt(c cryptCase) pbt.Result {
 		blob[c.Pos/8] ^= 1 << uint(c.Pos%8)
 	case "extend":
 		blob = append(blob, bytes.Repeat([]byte{0x5a}, c.Pos)...)
-	case "wrongpass":
+	case "wrongpass", "nearpass":
 		if bytes.Equal(c.Pass2, c.Pass) {
 			return pbt.Result{Skip: true}
 		}
 		pass = c.Pass2
 	}
+	before := append([]byte(nil), blob...)
 	out, err, p = decrypt(blob, pass)
 	if p != nil {
 		return merge(res, pbt.Failf("%s: decrypting tampered input (%s@%d, %d of %d bytes) panicked: %v", c.API, c.Tamper, c.Pos, len(blob), len(blob1), p))
+	}
+	if !bytes.Equal(before, blob) {
+		return merge(res, pbt.Failf("%s: a failed decryption (%s) modified the encrypted input: %x -> %x", c.API, c.Tamper, before, blob))
 	}
 	if err == nil {
 		return merge(res, pbt.Failf("%s: decrypting tampered input (%s@%d) returned data %x instead of an error", c.API, c.Tamper, c.Pos, out))
@@ -520,47 +546,49 @@ func runIndex(c indexCase) pbt.Result {
 		return merge(res, pbt.Failf("NewDHashClient: %v", err))
 	}
 	ctx := context.Background()
-	for i, mhb := range c.MHs {
-		resp, err := cl.Find(ctx, multihash.Multihash(mhb))
-		if err != nil {
-			return merge(res, pbt.Failf("Find(%x): %v", mhb, err))
-		}
-		var got []triple
-		if len(resp.MultihashResults) > 1 {
-			return merge(res, pbt.Failf("Find(%x) returned %d multihash results", mhb, len(resp.MultihashResults)))
-		}
-		for _, mr := range resp.MultihashResults {
-			if !bytes.Equal(mr.Multihash, mhb) {
-				return merge(res, pbt.Failf("Find(%x) returned result for multihash %x", mhb, []byte(mr.Multihash)))
+	for round := 0; round < 2; round++ { // the same store answers repeated queries identically
+		for i, mhb := range c.MHs {
+			resp, err := cl.Find(ctx, multihash.Multihash(mhb))
+			if err != nil {
+				return merge(res, pbt.Failf("Find(%x): %v", mhb, err))
 			}
-			for _, pr := range mr.ProviderResults {
-				if pr.Provider == nil {
-					return merge(res, pbt.Failf("Find(%x): result without provider", mhb))
+			var got []triple
+			if len(resp.MultihashResults) > 1 {
+				return merge(res, pbt.Failf("Find(%x) returned %d multihash results", mhb, len(resp.MultihashResults)))
+			}
+			for _, mr := range resp.MultihashResults {
+				if !bytes.Equal(mr.Multihash, mhb) {
+					return merge(res, pbt.Failf("Find(%x) returned result for multihash %x", mhb, []byte(mr.Multihash)))
 				}
-				if c.Providers {
-					wantAddr := ""
-					for k := 0; k < 8; k++ {
-						if gen.Keys()[k].ID == pr.Provider.ID {
-							wantAddr = providerInfoFor(k).AddrInfo.Addrs[0].String()
+				for _, pr := range mr.ProviderResults {
+					if pr.Provider == nil {
+						return merge(res, pbt.Failf("Find(%x): result without provider", mhb))
+					}
+					if c.Providers {
+						wantAddr := ""
+						for k := 0; k < 8; k++ {
+							if gen.Keys()[k].ID == pr.Provider.ID {
+								wantAddr = providerInfoFor(k).AddrInfo.Addrs[0].String()
+							}
+						}
+						if len(pr.Provider.Addrs) != 1 || pr.Provider.Addrs[0].String() != wantAddr {
+							return merge(res, pbt.Failf("Find(%x): provider %s has addresses %v, want [%s]", mhb, pr.Provider.ID, pr.Provider.Addrs, wantAddr))
 						}
 					}
-					if len(pr.Provider.Addrs) != 1 || pr.Provider.Addrs[0].String() != wantAddr {
-						return merge(res, pbt.Failf("Find(%x): provider %s has addresses %v, want [%s]", mhb, pr.Provider.ID, pr.Provider.Addrs, wantAddr))
-					}
+					got = append(got, triple{pr.Provider.ID.String(), string(pr.ContextID), string(pr.Metadata)})
 				}
-				got = append(got, triple{pr.Provider.ID.String(), string(pr.ContextID), string(pr.Metadata)})
 			}
-		}
-		w := append([]triple(nil), want[i]...)
-		less := func(s []triple) func(a, b int) bool {
-			return func(a, b int) bool {
-				return s[a].P+"\x00"+s[a].C+"\x00"+s[a].M < s[b].P+"\x00"+s[b].C+"\x00"+s[b].M
+			w := append([]triple(nil), want[i]...)
+			less := func(s []triple) func(a, b int) bool {
+				return func(a, b int) bool {
+					return s[a].P+"\x00"+s[a].C+"\x00"+s[a].M < s[b].P+"\x00"+s[b].C+"\x00"+s[b].M
+				}
 			}
-		}
-		sort.Slice(got, less(got))
-		sort.Slice(w, less(w))
-		if fmt.Sprint(got) != fmt.Sprint(w) {
-			return merge(res, pbt.Failf("Find(%x) returned %d results %q, indexed %d: %q", mhb, len(got), got, len(w), w))
+			sort.Slice(got, less(got))
+			sort.Slice(w, less(w))
+			if fmt.Sprint(got) != fmt.Sprint(w) {
+				return merge(res, pbt.Failf("Find(%x) (query round %d) returned %d results %q, indexed %d: %q", mhb, round, len(got), got, len(w), w))
+			}
 		}
 	}
 	resp, err := cl.Find(ctx, multihash.Multihash(c.QueryMiss))
@@ -572,7 +600,7 @@ func runIndex(c indexCase) pbt.Result {
 
 func TestC12_Index(t *testing.T) {
 	pbt.Run(t, pbt.Config{Prop: "C12", Unit: "TestC12_Index", TrackCurrent: true,
-		Rule: "indexes of 1..5 multihashes -> 1..8 (provider, context ID 0..64 B, metadata 1..200 B) entries, stored through CreateValueKey/EncryptValueKey/EncryptMetadata/SecondMultihash/SHA256 into an independent in-memory dhstore (reached through the DHStoreAPI interface or through the library's HTTP dhstore client against a loopback server), plus 0..3 garbage value keys (0..40 random bytes) placed first; metadata-only mode or provider info from a loopback /providers endpoint; oracle: Find(mh) returns exactly the indexed multiset for each multihash, nothing for a multihash that is not indexed, never an error or crash. Non-trivial: >= 2 providers for one multihash, or garbage keys present; distinct by case.",
+		Rule:        "indexes of 1..5 multihashes -> 1..8 (provider, context ID 0..64 B, metadata 1..200 B) entries, stored through CreateValueKey/EncryptValueKey/EncryptMetadata/SecondMultihash/SHA256 into an independent in-memory dhstore (reached through the DHStoreAPI interface or through the library's HTTP dhstore client against a loopback server), plus 0..3 garbage value keys (0..40 random bytes) placed first; metadata-only mode or provider info from a loopback /providers endpoint; oracle: Find(mh) returns exactly the indexed multiset for each multihash, nothing for a multihash that is not indexed, never an error or crash. Non-trivial: >= 2 providers for one multihash, or garbage keys present; distinct by case.",
 		Assumptions: []string{"metadata is >= 1 byte (the client documents empty metadata as 'no metadata')", "one metadata per (provider, context ID) pair, as the value key addresses the metadata", "providers have no extended providers (expansion is C17)"},
 	}, genIndex, runIndex)
 }
